@@ -52,6 +52,7 @@ VAR_GLOBAL
   g_cnt : DINT := 0;
   g_keep : DINT := 0;
   g_ret : DINT := 0;
+  g_trip : DINT := 0;
 END_VAR
 VAR_GLOBAL RETAIN
   g_saved : DINT := 0;
@@ -96,11 +97,14 @@ out_b := BYTE#16#A5;
 END_PROGRAM
 
 PROGRAM Bg
-VAR_EXTERNAL g_div3 : DINT; g_keep : DINT; END_VAR
+VAR_EXTERNAL g_div3 : DINT; g_keep : DINT; g_trip : DINT; END_VAR
 VAR
   out_l AT %QL8 : LINT;
   t : DINT;
+  n_bg : DINT;
 END_VAR
+n_bg := n_bg + 1;
+IF (g_trip > 0) AND (n_bg >= g_trip) THEN t := 1 / (n_bg - n_bg); END_IF;
 t := 7 / g_div3;
 g_keep := g_keep + t;
 out_l := g_keep + LINT#73300775185;
@@ -186,6 +190,9 @@ impl C08Check {
             let mut d = drivers.lock().unwrap();
             d.debug = Some(debug.clone());
             d.churn = true;
+            if case["report_health"].as_bool().unwrap_or(false) {
+                d.report_health = vec![true; n_drivers];
+            }
         }
         let policy = match case["policy"].as_str().unwrap_or("halt") {
             "safe_halt" => FaultPolicy::SafeHalt,
@@ -481,6 +488,11 @@ impl C08Check {
                     now = 0;
                     stats.inc("fault.restart");
                 }
+                "debug_write" if !restarted => {
+                    // a queued debugger write must not reach any variable while the resource is halted
+                    debug.enqueue_global_write("g_cnt", Value::DInt(op["val"].as_i64().unwrap_or(99) as i32));
+                    stats.inc("fault.debugger_write_queued_while_faulted");
+                }
                 "fault_again" if !restarted => {
                     // a second fault report while halted must not un-latch anything
                     let _ = guard("simulation_fault", || rt.simulation_fault("again"))?;
@@ -544,6 +556,117 @@ impl C08Check {
         }
         Ok(Outcome { fired: true, budget_points_in_fault_cycle: points })
     }
+}
+
+impl C08Check {
+    /// The real resource loop (own OS thread; the simulator only joins it, so there is no interleaving to decide):
+    /// a watchdog trip (timeout 0 trips after the first cycle) or a value fault at cycle `trip`, under
+    /// `spawn` or `spawn_with_shared`.
+    fn run_runner(&self, case: &Json, stats: &mut Stats) -> Result<(), Violation> {
+        use trust_runtime::scheduler::{ManualClock, ResourceRunner, ResourceState, SharedGlobals};
+        let src = plant_source(2);
+        let mut rt = match guard("compile", || world::compile(&src))? {
+            Ok(rt) => rt,
+            Err(e) => return Err(Violation::new("harness/compile-rejected", e)),
+        };
+        let n_drivers = case["n_drivers"].as_u64().unwrap_or(1).clamp(1, 3) as usize;
+        rt.io_mut().resize(4, OUT_LEN, 2);
+        let drivers = world::attach_drivers(&mut rt, n_drivers);
+        drivers.lock().unwrap().churn = true;
+        let policy = if case["policy"] == "safe_halt" { FaultPolicy::SafeHalt } else { FaultPolicy::Halt };
+        let wd_action = if case["wd_action"] == "halt" { WatchdogAction::Halt } else { WatchdogAction::SafeHalt };
+        rt.set_fault_policy(policy);
+        let kind = case["fault"]["kind"].as_str().unwrap_or("watchdog");
+        let watchdog = kind == "watchdog";
+        rt.set_watchdog_policy(WatchdogPolicy { enabled: watchdog, timeout: Duration::from_nanos(0), action: wd_action });
+        let mut safe: Vec<(String, usize, u32, u64, Vec<(usize, u32)>)> = vec![];
+        let mut state = IoSafeState::default();
+        for e in case["safe"].as_array().cloned().unwrap_or_default() {
+            let size = e["size"].as_str().unwrap_or("X").to_string();
+            let byte = (e["byte"].as_u64().unwrap_or(0) as usize).min(15);
+            let bit = e["bit"].as_u64().unwrap_or(0).min(7) as u32;
+            let val = e["val"].as_u64().unwrap_or(0);
+            let sp = span(&size, byte, bit);
+            if safe.iter().any(|s| overlaps(&s.4, &sp)) {
+                continue;
+            }
+            let text = if size == "X" { format!("%QX{byte}.{bit}") } else { format!("%Q{size}{byte}") };
+            if let Ok(a) = IoAddress::parse(&text) {
+                state.outputs.push((a, safe_value(&size, val)));
+                safe.push((size, byte, bit, val, sp));
+            }
+        }
+        rt.set_io_safe_state(state);
+        let trip = case["fault"]["trip"].as_i64().unwrap_or(1).clamp(1, 20);
+        if !watchdog {
+            rt.storage_mut().set_global("g_trip", Value::DInt(trip as i32));
+        }
+        let shared_mode = case["shared"].as_bool().unwrap_or(false);
+        // cycle interval 0: the loop free-runs without waiting for the (never advanced) manual clock
+        let runner = ResourceRunner::new(rt, ManualClock::new(), Duration::from_nanos(0));
+        let spawned = if shared_mode {
+            let shared = guard("SharedGlobals::from_runtime", || SharedGlobals::from_runtime(vec!["g_cnt".into(), "g_keep".into()], &runner_runtime_placeholder()))?;
+            match shared {
+                Ok(sh) => guard("spawn_with_shared", move || runner.spawn_with_shared("res-0", sh))?,
+                Err(e) => return Err(Violation::new("harness/shared-globals", format!("{e:?}"))),
+            }
+        } else {
+            guard("spawn", move || runner.spawn("res-0"))?
+        };
+        let mut handle = match spawned {
+            Ok(h) => h,
+            Err(e) => return Err(Violation::new("harness/spawn", format!("{e:?}"))),
+        };
+        // the loop ends by itself when the resource faults (policy halt / safe_halt)
+        let joined = handle.join();
+        if joined.is_err() {
+            return Err(Violation::new("runner/thread-panicked", "the resource thread panicked".to_string()));
+        }
+        stats.inc(&format!("fault.runner_{kind}"));
+        stats.inc(if shared_mode { "probe.runner_with_shared_globals" } else { "probe.runner_plain" });
+        let label = format!("runner-{}/{}", if shared_mode { "shared" } else { "plain" }, if watchdog { case["wd_action"].as_str().unwrap_or("") } else { case["policy"].as_str().unwrap_or("") });
+        if handle.state() != ResourceState::Faulted {
+            return Err(Violation::new(format!("latch/runner-state-not-faulted/{label}"), format!("resource state {:?} after the fault", handle.state())));
+        }
+        let err = handle.last_error();
+        let expected = if watchdog { "WatchdogTimeout" } else { "DivisionByZero" };
+        if err.as_ref().map(variant_name).as_deref() != Some(expected) {
+            return Err(Violation::new(format!("harness/runner-unexpected-error/{label}"), format!("{err:?}")));
+        }
+        let expect_safe = watchdog || policy == FaultPolicy::SafeHalt;
+        let log = drivers.lock().unwrap().log.clone();
+        stats.log(&format!("{label}:{}", log.len()));
+        if expect_safe && !safe.is_empty() {
+            for drv in 0..n_drivers {
+                let last = log.iter().rev().find_map(|e| match e {
+                    DriverEvent::Write { driver, image } if *driver == drv => Some(image.clone()),
+                    _ => None,
+                });
+                let Some(image) = last else {
+                    return Err(Violation::new(format!("safe/driver-not-served/{label}"), format!("driver {drv} never received an image")));
+                };
+                for (size, byte, bit, val, _) in &safe {
+                    if !image_holds(&image, size, *byte, *bit, *val) {
+                        return Err(Violation::new(
+                            format!("safe/driver-image-missing-value/{label}"),
+                            format!("through the resource loop: driver {drv} last received {image:?}, lacks %Q{size}{byte}.{bit}={val}"),
+                        ));
+                    }
+                }
+            }
+            stats.inc("probe.safe_state_checked");
+        }
+        let mut h = Fnv::new();
+        h.str(&label).u64(n_drivers as u64).u64(safe.len() as u64).u64(trip as u64);
+        stats.nontrivial(h.finish());
+        stats.state(h.finish());
+        Ok(())
+    }
+}
+
+/// SharedGlobals::from_runtime needs a runtime that declares the names; a second build of the plant serves
+fn runner_runtime_placeholder() -> trust_runtime::Runtime {
+    world::compile(&plant_source(2)).expect("plant compiles")
 }
 
 fn render_log(log: &[DriverEvent]) -> String {
@@ -623,11 +746,27 @@ impl Check for C08Check {
             // budget: every 3rd budget case enumerates all points, the others sample one
             "k": if kind == "budget" && index % 3 != 0 { Json::from(f.below(90)) } else { Json::Null },
         });
+        if index % 9 == 8 {
+            let watchdog = f.bool();
+            return json!({
+                "runner": true,
+                "n_drivers": n_drivers,
+                "policy": *cfg.pick(&["halt", "safe_halt", "safe_halt"]),
+                "wd_action": *cfg.pick(&["halt", "safe_halt"]),
+                "safe": safe,
+                "shared": cfg.bool(),
+                "fault": {"kind": if watchdog { "watchdog" } else { "div" }, "trip": f.range(1, 12)},
+            });
+        }
         let mut ops = vec![];
         for _ in 0..o.usize(1, 4) {
             ops.push(json!({"k": "cycle", "dt": *o.pick(&[0i64, 1, 10_000_000, 20_000_000, 1_000_000_000])}));
             if o.chance(1, 5) {
                 ops.push(json!({"k": "fault_again"}));
+            }
+            if o.chance(1, 4) {
+                ops.push(json!({"k": "debug_write", "val": o.range(50, 90)}));
+                ops.push(json!({"k": "cycle", "dt": 10_000_000}));
             }
         }
         if o.chance(1, 2) {
@@ -643,6 +782,7 @@ impl Check for C08Check {
             "safe": safe,
             "fail_safe_write": fail_safe_write,
             "with_store": cfg.chance(1, 4),
+            "report_health": cfg.chance(1, 2),
             "fault": fault,
             "ops": ops,
         })
@@ -651,6 +791,11 @@ impl Check for C08Check {
     fn run(&self, case: &Json, stats: &mut Stats) -> Result<(), Violation> {
         for p in ["probe.safe_state_checked", "probe.safe_delivery_failed_on_a_driver", "probe.safe_delivery_with_failing_and_healthy_driver", "probe.refused_cycle", "probe.cycle_after_restart", "probe.halt_without_safe_state"] {
             stats.add(p, 0);
+        }
+        stats.add("probe.runner_with_shared_globals", 0);
+        stats.add("probe.runner_plain", 0);
+        if case["runner"].as_bool().unwrap_or(false) {
+            return self.run_runner(case, stats);
         }
         let kind = case["fault"]["kind"].as_str().unwrap_or("sim");
         if kind == "budget" && case["fault"]["k"].is_null() {
